@@ -469,6 +469,7 @@ type lbOpts struct {
 	plugins         []config.PluginConfig
 	logging         config.LoggingConfig
 	wsPool          bool
+	handlerTimeout  int // server.timeouts.handler in seconds (with fullChain: the end-to-end request deadline)
 }
 
 var strategies = []string{"round_robin", "least_connections", "weighted_round_robin", "ip_hash", "ip_hash_consistent"}
@@ -492,6 +493,7 @@ func newLBHarness(x *X, net *stubNet, o lbOpts) (*lbHarness, error) {
 		cfg.RateLimit = *o.limiter
 	}
 	cfg.LoadBalancer.WebSocketPool.Enabled = o.wsPool
+	cfg.Server.Timeouts.Handler = o.handlerTimeout
 	cfg.Logging = o.logging
 	cfg.Logging.Level = "fatal"
 	if len(o.plugins) > 0 {
